@@ -130,7 +130,7 @@ def all_cells():
     # C'': the connection is taken down while the READER is suspended in the drain() of something it writes itself (the Logon reply,
     # a ResendRequest): what the reader does when it resumes must not undo the disconnect
     for role in ("acceptor", "initiator"):
-        for first in ("reader-logon-reply", "reader-resend-request", "reader-testrequest-reply"):
+        for first in ("reader-logon-reply", "reader-resend-request", "reader-testrequest-reply", "reader-resend-reply"):
             if first == "reader-logon-reply" and role != "acceptor":
                 continue
             for second in ("app-disconnect", "app-disconnect-logout", "eof"):
@@ -831,7 +831,16 @@ async def cell_C_reader_parked(acc, clock, cell, cid):
         if writer0.closed and after == "drain-raises":
             raise ConnectionResetError("Connection lost")
     ep.vf_writer.drain_hook = drain_hook
-    if first == "reader-logon-reply":
+    if first == "reader-resend-reply":
+        # the reader answers a ResendRequest with several retransmissions and is parked in the drain() of the first one
+        from asyncfix import FIXMessage
+        ep.vf_writer.drain_hook = None
+        for k in range(3):
+            await ep.send_msg(FIXMessage("D", {11: f"mine{k}", 55: "X"}))
+        ep.vf_writer.drain_hook = drain_hook
+        o = Obs(ep, j)
+        ep.vf_reader.feed(mkframe("2", E_, "PEER", "ME", [(7, 1), (16, 0)]))
+    elif first == "reader-logon-reply":
         ep.vf_reader.feed(mkframe("A", E_, "PEER", "ME", [(98, 0), (108, 30)]))
     elif first == "reader-resend-request":
         ep.vf_reader.feed(mkframe("D", E_ + 3, "PEER", "ME", [(11, "ahead")]))
@@ -877,6 +886,8 @@ async def cell_C_reader_parked(acc, clock, cell, cid):
     if n.disc != o.disc + 1:
         return acc.violation("disconnect-undone-by-the-suspended-reader:on_disconnect-count", f"on_disconnect called {n.disc - o.disc} times", w, cid)
     idx = max((i for i, e in enumerate(evs) if e[0] == "disconnect"), default=-1)
+    if idx >= 0 and any(e[0] == "should_replay" for e in evs[idx + 1:]):
+        return acc.violation("activity-after-disconnect:should_replay-after-on_disconnect", f"after on_disconnect the application is still asked about journaled messages: {evs[idx + 1:][:4]}", w, cid)
     later = [e for e in evs[idx + 1:] if e[0] in ("logon", "msg") or (e[0] == "state" and e[1] not in ("DISCONNECTED_BROKEN_CONN", "DISCONNECTED_WCONN_TODAY", "DISCONNECTED_NOCONN_TODAY"))]
     if idx >= 0 and later:
         return acc.violation("activity-after-disconnect:suspended-reader-resumes", f"after on_disconnect: {later}", w, cid)
